@@ -6,7 +6,10 @@ import itertools
 PRELUDE = '''
 class _Obj:
     def __init__(s, k): object.__setattr__(s, 'k', k)
-    def __getattr__(s, a): return _OBJ(('attr', s.k, a))
+    def __getattr__(s, a):
+        if a[:1] == 'v':          # observable attribute reads (a property / __getattr__ with an effect)
+            _LOG.append(('getattr', s.k, a))
+        return _OBJ(('attr', s.k, a))
     def __setattr__(s, a, v): pass
     def __repr__(s): return 'O%r' % (s.k,)
     def __getitem__(s, i): _LOG.append(('get', s.k, repr(i))); return _OBJ(('item', s.k))
@@ -79,6 +82,9 @@ class Gen:
 
     def value(self, shape):
         if shape is None:
+            if self.r.random() < 0.25:
+                # a dotted name whose attribute reads are observable: read once, before the targets
+                return self.r.choice(["s_.v0", "s_.v1.v2", "s_.a.v3"])
             return self.p()
         parts = []
         for sh in shape:
@@ -96,7 +102,7 @@ class Gen:
             return f"{t} = {self.value(sh)}"
         if c == 1:      # chained simple targets
             ts = [self.simple_target() for _ in range(self.r.randrange(2, 4))]
-            return " = ".join(ts) + " = " + self.p()
+            return " = ".join(ts) + " = " + self.value(None)
         if c == 2:      # chained with one pattern
             t, sh = self.pattern(2)
             ts = [self.simple_target(), t, self.simple_target()][: self.r.randrange(2, 4)]
@@ -190,6 +196,7 @@ def run(code, mode, inplace, probe="__probe", dump="__dump", truth=True):
     g["_OBJ"] = cls
     g["_LOG"] = log
     g["_TRUTH"] = truth       # truth value of every probe object: the oracle of the Lean trace
+    g["s_"] = cls("s")        # a bound name whose `.v*` attribute reads are logged
 
     probe_name, dump_name = probe, dump
 
